@@ -223,8 +223,6 @@ package types
 // the fields of Map, readOnly and entry are touched by the functions of types/map.go only (checked on every run): the
 // monitor invariant below is established by the zero value (no snapshot, no dirty map: every clause is vacuous), kept by
 // every method of the file that is under contract, and therefore assumed - not required of callers - at their entry.
-// CompareAndSwap and CompareAndDelete are not under contract (they compare values of a type parameter through interfaces);
-// they write entry pointers only through the same compare-and-swap loops and call missLocked under the same guard.
 //@ private Map, readOnly, entry in map.go
 //@ macro mrd(m)       = aload(m.read)
 //@ macro mrhas(m, k)  = mrd(m) != nil && maphas(mrd(m).m, k)
@@ -283,6 +281,14 @@ package types
 //@   loop 1 invariant aload(e.p) == old(aload(e.p)) && p == aload(e.p)
 //@   ensures [C20.map.e.expunge.nil]  old(aload(e.p)) == nil ==> isExpunged && aload(e.p) == e.expunged
 //@   ensures [C20.map.e.expunge.kept] old(aload(e.p)) != nil ==> isExpunged == (old(aload(e.p)) == e.expunged) && aload(e.p) == old(aload(e.p))
+
+//@ func (*entry).tryCompareAndSwap(old, new)
+//@   props C20
+//@   requires e != nil
+//@   modifies e.p.v
+//@   loop 1 invariant aload(e.p) == old(aload(e.p)) && p == aload(e.p) && p != nil && p != e.expunged && deref(p) == old
+//@   ensures [C20.map.e.cas.miss] (old(aload(e.p)) == nil || old(aload(e.p)) == e.expunged || old(deref(aload(e.p))) != old) ==> !result && aload(e.p) == old(aload(e.p))
+//@   ensures [C20.map.e.cas.hit]  old(aload(e.p)) != nil && old(aload(e.p)) != e.expunged && old(deref(aload(e.p))) == old ==> result && aload(e.p) != nil && fresh(aload(e.p)) && deref(aload(e.p)) == new
 
 //@ func (*Map).missLocked()
 //@   props C20, C04
@@ -361,6 +367,29 @@ package types
 //@   ensures [C20.map.del.gone,C04.map.del.gone]     !mhas(m, key)
 //@   ensures [C20.map.del.others,C04.map.del.others] forall k TKey :: k != key ==> mhas(m, k) == old(mhas(m, k)) && (mhas(m, k) ==> mval(m, k) == old(mval(m, k)))
 //@   ensures [C20.map.del.inv]    minv(m)
+
+// CompareAndSwap / CompareAndDelete: the entry changes only when the key is present with the expected value; every other
+// key is as it was (values of the type parameter are compared as Go compares them through interfaces; a comparison of
+// values of an uncomparable dynamic type panics in Go and is not modelled)
+//@ func (*Map).CompareAndSwap(key, old, new)
+//@   props C20
+//@   assumes minv(m)
+//@   monitor m.mu guards MapGuarded(m) invariant [C20.map.monitor] minv(m)
+//@   modifies MapState(m)
+//@   ensures [C20.map.cas.result] swapped == (atlock(mhas(m, key)) && atlock(mval(m, key)) == old)
+//@   ensures [C20.map.cas.stored] swapped ==> mhas(m, key) && mval(m, key) == new
+//@   ensures [C20.map.cas.others] forall k TKey :: (k != key || !swapped) ==> mhas(m, k) == atlock(mhas(m, k)) && (mhas(m, k) ==> mval(m, k) == atlock(mval(m, k)))
+//@   ensures [C20.map.cas.inv]    minv(m)
+//@ func (*Map).CompareAndDelete(key, old)
+//@   props C20
+//@   assumes minv(m)
+//@   monitor m.mu guards MapGuarded(m) invariant [C20.map.monitor] minv(m)
+//@   modifies MapState(m)
+//@   loop 1 invariant minv(m) && (ok ==> e != nil && e == atlock(mentry(m, key)) && (mlive(e) ==> e == mentry(m, key))) && (!ok ==> atlock(mentry(m, key)) == nil && !mhas(m, key)) && forall k TKey :: mhas(m, k) == atlock(mhas(m, k)) && (mhas(m, k) ==> mval(m, k) == atlock(mval(m, k)))
+//@   ensures [C20.map.cad.result] deleted == (atlock(mhas(m, key)) && atlock(mval(m, key)) == old)
+//@   ensures [C20.map.cad.gone]   deleted ==> !mhas(m, key)
+//@   ensures [C20.map.cad.others] forall k TKey :: (k != key || !deleted) ==> mhas(m, k) == atlock(mhas(m, k)) && (mhas(m, k) ==> mval(m, k) == atlock(mval(m, k)))
+//@   ensures [C20.map.cad.inv]    minv(m)
 
 // Clear: no key is present afterwards
 //@ func (*Map).Clear()
